@@ -482,6 +482,88 @@ def fault_unit(unit):
     return part
 
 
+COUNTER_STARTS = [0, 1, -1, 7, 2 ** 31, 2 ** 53, 2 ** 53 + 1, 2 ** 62,
+                  2 ** 63 - 2, 2 ** 63 - 1, -2 ** 63, -2 ** 63 + 1, 2 ** 64,
+                  0.5, -0.0, 1e16, 1.7e308, float('inf'), True]
+COUNTER_DELTAS = [1, 2, 5, 2 ** 53, 2 ** 62, 2 ** 63 - 1, 2 ** 63, 0.5, 1e16,
+                  1.7e308, True]
+
+
+def counter_unit(unit):
+    """incr/decr write a number back: what a later lookup returns must be
+    exactly (type and value) what the call returned, which must be the Python
+    sum; a rejected call leaves the old number.  Includes results that leave
+    the 64-bit range and int/float mixes."""
+    import diskcache as dc
+    _, kind = unit
+    part = {'states': 0, 'transitions': 0, 'executions': 0, 'violations': [],
+            'outcomes': {}, 'samples': [], 'caps': [],
+            'label': 'grid/counter'}
+    root = run.fresh_dir('n')
+    ENV.reset(run.scratch())
+    if kind == 'fanout':
+        cache = dc.FanoutCache(root, shards=2)
+    else:
+        cache = dc.Cache(root)
+    n = 0
+    try:
+        for start in COUNTER_STARTS:
+            part['states'] += 1
+            for delta in COUNTER_DELTAS:
+                for name in ('incr', 'decr'):
+                    for absent in (False, True):
+                        n += 1
+                        key = 'n%d' % n
+                        if absent:
+                            r = call(getattr(cache, name), key, delta,
+                                     default=start)
+                            before = 'ABSENT'
+                        else:
+                            stored = call(cache.set, key, start)
+                            if stored is not True:
+                                continue    # start itself cannot be stored
+                            before = cache.get(key)
+                            r = call(getattr(cache, name), key, delta)
+                        got = call(cache.get, key, 'ABSENT')
+                        part['transitions'] += 1
+                        part['executions'] += 1
+                        try:
+                            want = start + delta if name == 'incr' \
+                                else start - delta
+                        except OverflowError:
+                            want = None
+                        if isinstance(r, Raises):
+                            ok = same(got, before)
+                            outcome = 'rejected'
+                        else:
+                            ok = same(r, want) and same(got, r)
+                            outcome = 'stored'
+                        part['outcomes'][outcome] = \
+                            part['outcomes'].get(outcome, 0) + 1
+                        if not ok:
+                            part['violations'].append({
+                                'signature': {'clause': 'counter-not-exact',
+                                              'op': name, 'target': kind},
+                                'message': 'counter-not-exact: %s %r (%s) '
+                                           '%s(%r) returned %r, Python says '
+                                           '%r, a later get returns %r'
+                                           % (kind, start,
+                                              'as default' if absent else
+                                              'stored', name, delta, r, want,
+                                              got),
+                                'replay': {'engine': 'GRID',
+                                           'module': 'props.c01',
+                                           'unit': list(unit),
+                                           'label': '%r/%r' % (start, delta),
+                                           'accessor': name}})
+    finally:
+        cache.close()
+        run.drop(root)
+    part['samples'].append({'starts': len(COUNTER_STARTS),
+                            'deltas': len(COUNTER_DELTAS)})
+    return part
+
+
 def plan(tier):
     units = []
     for mfs in (0, 1, 16, 2 ** 15):
@@ -496,6 +578,8 @@ def plan(tier):
 def dispatch(unit):
     if unit[0] == 'fault':
         return fault_unit(unit)
+    if unit[0] == 'counter':
+        return counter_unit(unit)
     return work(unit)
 
 
@@ -503,6 +587,7 @@ def main(tier, seed):
     rep = run.Report('C01', tier, seed, TECHNIQUE)
     units = run.shuffled(plan(tier), seed)
     units += [('fault', m) for m in (16, 2 ** 15)]
+    units += [('counter', 'cache'), ('counter', 'fanout')]
     for part in run.pmap(dispatch, units):
         rep.merge(part, part.get('label'))
     rep.bounds = {
@@ -513,6 +598,10 @@ def main(tier, seed):
                        'thorough; protocols {0,2,5}, level 1 for thresholds '
                        '!= 16 in quick)',
         'configs': len(units),
+        'counters': '%d start values x %d deltas x incr/decr x stored/default '
+                    '(results leaving the 64-bit range, int/float mixes) on '
+                    'Cache and FanoutCache' % (len(COUNTER_STARTS),
+                                               len(COUNTER_DELTAS)),
         'faults': 'an OS error injected at every file event (mkdir, create, '
                   'each write chunk, close) of storing a file-backed bytes / '
                   'text / pickle / 2-chunk stream value, over an absent and '
